@@ -137,6 +137,11 @@ def main(tier, seed, prop=PROP):
         for pre, suf in TEMPLATES:
             npos.append(pre + x + suf)
     jobs.append((w_list63, (exe, sorted(set(npos)), opts, "notable-code-points", True, True)))
+    ds = LG.dictionary_strings()
+    ds += [w.replace(b"a", "\u00e9".encode()).replace(b"x", "\u4e2d".encode()) for w in ds[:: (7 if tier == "quick" else 1)]]
+    ds = sorted(set(ds))
+    for i in range(0, len(ds), 15000):
+        jobs.append((w_list63, (exe, ds[i:i + 15000], opts, "dictionary", i == 0, False)))
     wb = LG.width_boundary_strings(tier, utf8=True)
     for i in range(0, len(wb), 30):
         jobs.append((w_list63, (exe, wb[i:i + 30], opts, "width-boundaries", False, False)))
@@ -208,7 +213,7 @@ def main(tier, seed, prop=PROP):
                       "all 1- and 2-byte sequences, 3-byte sequences (%s), structured 4-byte cover, each in %d structural "
                       "positions; all strings up to length %d over %d tokens (ASCII classes + well/ill-formed multi-byte); "
                       "conformance + per-byte suites; corpus mutations; random walks to 64 KiB. distinct = generated "
-                      "(sequence, position) pairs and distinct strings per shard" % (three, len(TEMPLATES), k, len(TOKENS)),
+                      "(sequence, position) pairs and distinct strings per shard; local parts of 9 MiB under ASan and of 2^31.. bytes (thorough: to 2^32+3) in an -O2 build, built inside the driver" % (three, len(TEMPLATES), k, len(TOKENS)),
                       {"reference_automaton": {"transitions_total": len(total), "transitions_exercised": len(seen)},
                        "templates": [[core.b2s(a), core.b2s(b)] for a, b in TEMPLATES],
                        "tokens": [core.b2s(t) for t in TOKENS], "builds": cx.builds_info()})
